@@ -73,4 +73,19 @@ theorem appRetention_nat (n : Nat) (hlim : WithinLimit (Nat.toDigits 10 n).lengt
 /-- The default lease is none at all. -/
 theorem appLease_default : appLease none = .ok 0 := by decide
 
+/-- The object is kept exactly when capacity, partition, traits and parent all agree with the record. -/
+theorem reloadDecision_same (c r : SrvAttrs) :
+    reloadDecision (some c) (some r) = .same ↔
+      (c.cap = r.cap ∧ c.label = r.label ∧ c.traits = r.traits ∧ c.parent = r.parent) := by
+  obtain ⟨a1, a2, a3, a4⟩ := c
+  obtain ⟨b1, b2, b3, b4⟩ := r
+  simp only [reloadDecision]
+  split <;> simp_all
+
+/-- Whatever was loaded before, after a reload the master holds exactly what the record says (or
+    nothing, if there is no record). -/
+theorem reloadResult_eq (cur rec : Option SrvAttrs) : reloadResult cur rec = rec := by
+  rcases cur with _ | c <;> rcases rec with _ | r <;> simp [reloadResult, reloadDecision]
+  split <;> simp_all
+
 end TmVerif.LoaderDecode
